@@ -582,17 +582,236 @@ Qed.
 Lemma pool_unallocated_workers p p' : p_workers p' = p_workers p -> pool_unallocated p' = pool_unallocated p.
 Proof. unfold pool_unallocated. intros ->. reflexivity. Qed.
 
-Lemma model_step c o ob m shut prev :
-  K shut prev (ms_pool m) -> fresh_obs o prev ->
+(* ---- stamps: whatever is later than a threshold stays later; what appears is later ---- *)
+Definition fr (th : Z) (w w' : wkr) : Prop := w_id w' = w_id w /\ (th < w_updated w -> th < w_updated w').
+Definition FRP (th : Z) (ws ws' : list wkr) : Prop :=
+  forall w', In w' ws' -> (exists w, In w ws /\ fr th w w') \/ th < w_updated w'.
+Definition FR (th : Z) (p p' : wpool) : Prop := p_clock p <= p_clock p' /\ FRP th (p_workers p) (p_workers p').
+
+Lemma fr_refl th w : fr th w w.
+Proof. split; auto. Qed.
+Lemma fr_trans th a b c : fr th a b -> fr th b c -> fr th a c.
+Proof. intros [A1 A2] [B1 B2]. split; [congruence|auto]. Qed.
+Lemma fr_same th w w' : w_id w' = w_id w -> w_updated w' = w_updated w -> fr th w w'.
+Proof. intros A B. split; [exact A|rewrite B; auto]. Qed.
+Lemma fr_new th w w' : w_id w' = w_id w -> th < w_updated w' -> fr th w w'.
+Proof. intros A B. split; auto. Qed.
+Lemma fr_disj th c w w' : th <= c -> w_id w' = w_id w -> (w_updated w' = w_updated w \/ c < w_updated w') -> fr th w w'.
+Proof. intros Hc A [B|B]; [apply fr_same; assumption|apply fr_new; [assumption|lia]]. Qed.
+Lemma wframe_fr th c w w' : th <= c -> wframe c w w' -> fr th w w'.
+Proof. intros Hc (A & _ & _ & _ & B). eapply fr_disj; eassumption. Qed.
+
+Lemma FRP_refl th ws : FRP th ws ws.
+Proof. intros w Hin. left. exists w. split; [exact Hin|apply fr_refl]. Qed.
+Lemma FRP_trans th a b c : FRP th a b -> FRP th b c -> FRP th a c.
+Proof.
+  intros H1 H2 w'' Hin. destruct (H2 w'' Hin) as [(w' & Hw' & F2)|Hnew]; [|right; exact Hnew].
+  destruct (H1 w' Hw') as [(w & Hw & F1)|Hnew]; [left; exists w; split; [exact Hw|eapply fr_trans; eassumption]|].
+  right. apply F2. exact Hnew.
+Qed.
+Lemma FR_refl th p : FR th p p.
+Proof. split; [lia|apply FRP_refl]. Qed.
+Lemma FR_trans th a b c : FR th a b -> FR th b c -> FR th a c.
+Proof. intros [A1 A2] [B1 B2]. split; [lia|eapply FRP_trans; eassumption]. Qed.
+Lemma FR_same_workers th p p' : p_clock p <= p_clock p' -> p_workers p' = p_workers p -> FR th p p'.
+Proof. intros Hc Hw. split; [exact Hc|rewrite Hw; apply FRP_refl]. Qed.
+
+Lemma FRP_put th id ws w w' : find_w id ws = Some w -> fr th w w' -> FRP th ws (put_w w' ws).
+Proof.
+  intros Hf Hs x Hx. apply in_put in Hx. destruct Hx as [->|Hx].
+  - left. exists w. split; [eapply find_w_in; exact Hf|exact Hs].
+  - left. exists x. split; [exact Hx|apply fr_refl].
+Qed.
+
+Lemma pframe_FR th p p' : th <= p_clock p -> pframe p p' -> FR th p p'.
+Proof.
+  intros Hth (Hc & HF & _). split; [exact Hc|]. intros w' Hin.
+  destruct (frame_in _ _ _ _ HF Hin) as (w & Hw & Hfr). left. exists w. split; [exact Hw|eapply wframe_fr; eassumption].
+Qed.
+
+Lemma probe_begin_FR th id p : FR th p (snd (probe_begin id p)).
+Proof.
+  unfold probe_begin. destruct (find_w id (p_workers p)); [|apply FR_refl].
+  destruct (w_st w); try apply FR_refl; cbn [tick snd]; apply FR_same_workers; cbn; try lia; reflexivity.
+Qed.
+
+Lemma probe_end_FR c pb r p th : th <= p_clock p -> FR th p (probe_end c pb r p).
+Proof.
+  intros Hth. unfold probe_end. destruct (find_w (pb_id pb) (p_workers p)) as [w|] eqn:Ef; [|apply FR_refl].
+  cbv zeta.
+  destruct (if probe_lists pb r && pr_list_ok r then (if negb (pr_stale r) then _ else _) else _) as [[w0 clock0] bs] eqn:E0.
+  assert (S0 : fr th w w0 /\ p_clock p <= clock0).
+  { destruct (probe_lists pb r && pr_list_ok r); [|injection E0 as <- <- _; split; [apply fr_refl|lia]].
+    destruct (negb (pr_stale r)); [injection E0 as <- <- _; split; [apply fr_same; reflexivity|lia]|].
+    destruct (w_stale w =? 0); injection E0 as <- <- _; (split; [try apply fr_refl; apply fr_same; reflexivity|lia]). }
+  clear E0. destruct S0 as [S0 C0].
+  destruct (if _ && ibeh_eqb (w_ib w0) IRun then set_idle_behavior c w0 IDrain clock0 else (w0, clock0)) as [w1 clock1] eqn:E1.
+  assert (S1 : fr th w w1 /\ clock0 <= clock1).
+  { destruct (_ && ibeh_eqb (w_ib w0) IRun).
+    - apply set_idle_behavior_frame in E1. destruct E1 as (F & L & _). split; [|exact L].
+      eapply fr_trans; [exact S0|]. eapply wframe_fr; [|exact F]. lia.
+    - injection E1 as <- <-. split; [exact S0|lia]. }
+  clear E1 S0. destruct S1 as [S1 C1].
+  match goal with |- context [if ?X then _ else _] => destruct X end.
+  - destruct (wstate_eqb (w_st w1) WShutdown && _).
+    + split; [cbn [p_clock]; lia|cbn [p_workers]; eapply FRP_put; eassumption].
+    + destruct (shutdown_if_broken c _ w1 clock1) as [w2 clock2] eqn:E2.
+      apply shutdown_if_broken_view in E2. destruct E2 as (A & _ & _ & L & _ & D & _).
+      split; [cbn [p_clock]; lia|cbn [p_workers]]. eapply FRP_put; [exact Ef|].
+      eapply fr_trans; [exact S1|]. eapply (fr_disj th clock1); [lia|exact A|exact D].
+  - destruct (negb (pb_updated pb =? _)).
+    + split; [cbn [p_clock]; lia|cbn [p_workers]]. eapply FRP_put; [exact Ef|].
+      eapply fr_trans; [exact S1|apply fr_same; reflexivity].
+    + match goal with |- context [update_running ?a ?b ?cc ?d] => destruct (update_running a b cc d) as [[[w4 ex4] clock4] ch0] eqn:E4 end.
+      apply update_running_view in E4. destruct E4 as (A & _ & _ & L & _ & D & _).
+      assert (S4 : fr th w w4).
+      { eapply fr_trans; [exact S1|]. eapply fr_trans; [|eapply (fr_disj th (clock1 + 1)); [lia|exact A|exact D]].
+        destruct (if probe_lists pb r && pr_list_ok r then pr_uuids r else []); [destruct (w_running _)|]; apply fr_same; reflexivity. }
+      match goal with |- context [if negb ?X then _ else _] => destruct (negb X) end.
+      * split; [cbn [p_clock]; lia|cbn [p_workers]]. eapply FRP_put; [exact Ef|]. eapply fr_trans; [exact S4|].
+        assert (Hb : forall b : bool, fr th w4 (if b then with_st w4 WIdle else w4)) by (intros []; apply fr_same; reflexivity).
+        apply Hb.
+      * split; [cbn [p_clock]; lia|cbn [p_workers]]. eapply FRP_put; [exact Ef|].
+        apply fr_new; [|cbn; lia].
+        destruct S4 as [S4 _]. rewrite <- S4.
+        repeat match goal with |- context [if ?X then _ else _] => destruct X end; reflexivity.
+Qed.
+
+Lemma pool_start_FR th it u p : NoDup (map w_id (p_workers p)) -> FR th p (snd (pool_start it u p)).
+Proof.
+  intros Hn. unfold pool_start. destruct (pick_latest it (p_workers p) None) as [w|] eqn:E; cbn [snd]; [|apply FR_refl].
+  destruct (pick_latest_in _ _ _ _ E) as [[Hin _]|Hb]; [|discriminate].
+  split; [cbn; lia|cbn [p_workers set_workers]]. eapply FRP_put; [apply in_find_w; eassumption|apply fr_same; reflexivity].
+Qed.
+
+Lemma start_lands_FR th id u p : th <= p_clock p -> FR th p (start_lands id u p).
+Proof.
+  intros Hth. unfold start_lands. destruct (find_w id (p_workers p)) as [w|] eqn:Ef; [|apply FR_refl].
+  cbn [tick]. split; [cbn; lia|cbn [p_workers set_workers]]. eapply FRP_put; [exact Ef|apply fr_new; [reflexivity|cbn; lia]].
+Qed.
+
+Lemma kill_delivered_FR th id u p : th <= p_clock p -> FR th p (kill_delivered id u p).
+Proof.
+  intros Hth. unfold kill_delivered. destruct (find_w id (p_workers p)) as [w|] eqn:Ef; [|apply FR_refl].
+  destruct (close_runner u w (p_exited p) (p_clock p)) as [[w' ex] clock] eqn:E.
+  apply close_runner_view in E. destruct E as (A & _ & _ & _ & L & D & _).
+  split; [cbn; lia|cbn [p_workers]]. eapply FRP_put; [exact Ef|eapply fr_disj; eassumption].
+Qed.
+
+Lemma sync_listed_FRP c th ws0 listed : forall ws clock ws1 clock1,
+  th <= clock -> FRP th ws0 ws -> sync_listed c listed ws clock = (ws1, clock1) -> FRP th ws0 ws1 /\ clock <= clock1.
+Proof.
+  induction listed as [|[[id it] ib] r IH]; intros ws clock ws1 clock1 Hth HF; cbn [sync_listed].
+  - intros H; injection H as <- <-. split; [exact HF|lia].
+  - assert (Hput : forall w', th < w_updated w' -> FRP th ws0 (put_w w' ws)).
+    { intros w' Hw x Hx. apply in_put in Hx. destruct Hx as [->|Hx]; [right; exact Hw|apply HF; exact Hx]. }
+    destruct (find_w id ws) as [w|] eqn:Ef.
+    + destruct (wstate_eqb _ _ && _); intros H.
+      * assert (H1 : th <= clock + 1 + 1) by lia.
+        assert (H2 : th < w_updated (w_shutdown (clock + 1 + 1) (with_updated w (clock + 1)))) by (cbn; lia).
+        destruct (IH _ _ _ _ H1 (Hput _ H2) H) as [A B]. split; [exact A|lia].
+      * assert (H1 : th <= clock + 1) by lia.
+        assert (H2 : th < w_updated (with_updated w (clock + 1))) by (cbn; lia).
+        destruct (IH _ _ _ _ H1 (Hput _ H2) H) as [A B]. split; [exact A|lia].
+    + intros H.
+      assert (HF' : FRP th ws0 (ws ++ [new_worker id it WUnknown ib (clock + 1)])).
+      { intros x Hx. apply in_app_or in Hx. destruct Hx as [Hx|[<-|[]]]; [apply HF; exact Hx|right; cbn; lia]. }
+      assert (H1 : th <= clock + 1) by lia.
+      destruct (IH _ _ _ _ H1 HF' H) as [A B]. split; [exact A|lia].
+Qed.
+
+Lemma pool_sync_at_FR c th t listed p : th <= p_clock p -> FR th p (pool_sync_at c t listed p).
+Proof.
+  intros Hth. unfold pool_sync_at. destruct (sync_listed c listed (p_workers p) (p_clock p)) as [ws clock] eqn:E.
+  destruct (sync_listed_FRP c th (p_workers p) listed _ _ _ _ Hth (FRP_refl th _) E) as [A B].
+  split; [cbn; exact B|cbn [p_workers]]. intros x Hx. apply filter_In in Hx. apply A. apply Hx.
+Qed.
+
+Lemma pool_create_FR th it newid oc p : th <= p_clock p -> FR th p (snd (pool_create it newid oc p)).
+Proof.
+  intros Hth. unfold pool_create. destruct (p_quota p); [apply FR_refl|]. cbn [tick].
+  destruct oc as [|[q|q|]]; cbn [snd]; try (apply FR_same_workers; cbn; [lia|reflexivity]).
+  split; [cbn; lia|cbn [p_workers set_workers]]. intros x Hx. apply in_app_or in Hx.
+  destruct Hx as [Hx|[<-|[]]]; [left; exists x; split; [exact Hx|apply fr_refl]|right; cbn; lia].
+Qed.
+
+Lemma tick_FR th p : FR th p (snd (tick p)).
+Proof. apply FR_same_workers; cbn; [lia|reflexivity]. Qed.
+
+(* every operation of the stage *)
+Lemma apply_op_FR c o m th :
+  NoDup (ids (ms_pool m)) -> th <= p_clock (ms_pool m) -> FR th (ms_pool m) (ms_pool (snd (apply_op c o m))).
+Proof.
+  intros Hn Hth. set (p := ms_pool m) in *.
+  assert (Ht : FR th p (snd (tick p))) by apply tick_FR.
+  assert (Hth' : th <= p_clock (snd (tick p))) by (cbn; lia).
+  assert (Hn' : NoDup (map w_id (p_workers (snd (tick p))))) by exact Hn.
+  eapply FR_trans; [exact Ht|]. unfold apply_op. fold p.
+  destruct o.
+  - cbn [snd ms_pool]. rewrite pool_sync_is_sync_at. eapply FR_trans; [apply tick_FR|]. apply pool_sync_at_FR. cbn; lia.
+  - pose proof (pool_create_FR th it newid outcome (snd (tick p)) Hth') as H.
+    destruct (pool_create it newid outcome (snd (tick p))) as [b p']. exact H.
+  - pose proof (probe_begin_FR th id (snd (tick p))) as H.
+    destruct (probe_begin id (snd (tick p))) as [[pb|] p']; cbn [snd ms_pool] in *; [|exact H].
+    eapply FR_trans; [exact H|]. apply probe_end_FR. destruct H as [H _]. lia.
+  - pose proof (probe_begin_FR th id (snd (tick p))) as H.
+    destruct (probe_begin id (snd (tick p))) as [[pb|] p']; cbn [snd ms_pool] in *; [|exact H].
+    destruct (probe_lists pb r); cbn [snd ms_pool]; [exact H|].
+    eapply FR_trans; [exact H|]. apply probe_end_FR. destruct H as [H _]. lia.
+  - destruct (filter _ (ms_pending m)) as [|[pb r] rest]; cbn [snd ms_pool]; [apply FR_refl|apply probe_end_FR; exact Hth'].
+  - pose proof (pool_start_FR th it u (snd (tick p)) Hn') as H.
+    destruct (pool_start it u (snd (tick p))) as [r p']. exact H.
+  - cbn [snd ms_pool]. apply start_lands_FR. exact Hth'.
+  - pose proof (pframe_FR th _ _ Hth' (pool_kill_frame u (snd (tick p)))) as H.
+    destruct (pool_kill u (snd (tick p))) as [b p']. exact H.
+  - cbn [snd ms_pool]. apply kill_delivered_FR. exact Hth'.
+  - cbn [snd ms_pool]. apply pframe_FR; [exact Hth'|apply give_up_frame].
+  - cbn [snd ms_pool]. apply pframe_FR; [exact Hth'|apply pool_forget_frame].
+  - cbn [snd ms_pool]. apply pframe_FR; [exact Hth'|apply pool_set_ib_frame].
+  - pose proof (pframe_FR th _ _ Hth' (pool_shutdown_frame it chosen (snd (tick p)))) as H.
+    destruct (pool_shutdown it chosen (snd (tick p))) as [b p']. exact H.
+  - cbn [snd ms_pool]. apply pframe_FR; [exact Hth'|apply pool_sweep_frame].
+  - cbn [snd ms_pool]. apply FR_refl.
+  - cbn [snd ms_pool]. split; [cbn; lia|intros x []].
+  - cbn [snd ms_pool]. apply FR_refl.
+  - cbn [tick snd ms_pool]. apply FR_same_workers; cbn; [lia|reflexivity].
+  - destruct (ms_sync m) as [[t l]|]; cbn [snd ms_pool]; [apply pool_sync_at_FR; exact Hth'|apply FR_refl].
+Qed.
+
+(* the list request in flight, as the model and as the judge carry it *)
+Definition SI (sb : option (list N)) (m : mstate) : Prop :=
+  match ms_sync m, sb with
+  | Some (th, _), Some b =>
+      th <= p_clock (ms_pool m) /\ forall w, In w (p_workers (ms_pool m)) -> ~ In (w_id w) b -> th < w_updated w
+  | None, None => True
+  | _, _ => False
+  end.
+
+Lemma ms_sync_apply c o m :
+  match o with
+  | OSyncBegin _ | OSyncEnd | ORestart => True
+  | _ => ms_sync (snd (apply_op c o m)) = ms_sync m
+  end.
+Proof.
+  destruct o; try exact I; unfold apply_op;
+    repeat match goal with
+           | |- context [let (_, _) := ?X in _] => destruct X
+           | |- context [match ?X with _ => _ end] => destruct X
+           end; reflexivity.
+Qed.
+
+Lemma model_step c o ob m shut sb prev :
+  K shut prev (ms_pool m) -> SI sb m -> fresh_obs o prev ->
   (match o with OStuck _ => false | _ => true end) = true ->
   obs_eqb (project (fst (apply_op c o m)) (ms_pool (snd (apply_op c o m)))) ob = true ->
-  K (next_shut shut o ob) ob (ms_pool (snd (apply_op c o m))) /\ pool_clause shut prev o ob.
+  K (next_shut shut o ob) ob (ms_pool (snd (apply_op c o m))) /\ SI (next_sb sb o ob) (snd (apply_op c o m)) /\
+  pool_clause shut sb prev o ob.
 Proof.
-  intros (Hn & Hag & Hsh) Hfr Hns Heq.
+  intros (Hn & Hag & Hsh) HSI Hfr Hns Heq.
   apply obs_eqb_fields in Heq. destruct Heq as (Eret & Eun & Einst).
   rewrite ob_inst_project in Einst. cbn [project ob_ret ob_unalloc] in Eret, Eun.
   assert (Hag' : agrees ob (ms_pool (snd (apply_op c o m)))) by (split; symmetry; assumption).
-  split.
+  split; [|split].
   - (* the invariant *)
     destruct (op_restart_dec o) as [->|Hr].
     + cbn. split; [constructor|]. split; [exact Hag'|intros i []].
@@ -607,6 +826,24 @@ Proof.
       * pose proof (shutdown_is_terminal c o m i Hr Hfc Hn (Hsh i Hi)) as Ho.
         apply (ids_agree _ _ i Hag') in Hpres. unfold ids in Hpres. apply in_map_iff in Hpres.
         destruct Hpres as (w & E & Hw). exists w. split; [exact Hw|]. split; [exact E|apply Ho; assumption].
+  - (* the list request in flight *)
+    assert (Hgen : ms_sync (snd (apply_op c o m)) = ms_sync m -> next_sb sb o ob = sb ->
+                   SI (next_sb sb o ob) (snd (apply_op c o m))).
+    { intros E1 E2. unfold SI in *. rewrite E1, E2. destruct (ms_sync m) as [[th l]|]; [|exact HSI].
+      destruct sb as [b|]; [|exact HSI]. destruct HSI as [Hth Hall].
+      destruct (apply_op_FR c o m th Hn Hth) as [Hc HF]. split; [lia|].
+      intros w' Hw' Hnb. destruct (HF w' Hw') as [(w & Hw & Hid & Hup)|Hnew]; [|exact Hnew].
+      apply Hup. apply Hall; [exact Hw|]. rewrite <- Hid. exact Hnb. }
+    pose proof (ms_sync_apply c o m) as Hms.
+    destruct o; try (apply Hgen; [exact Hms|reflexivity]).
+    + (* ORestart *) cbn. exact I.
+    + (* OSyncBegin *)
+      unfold SI. cbn [apply_op]. unfold apply_op. cbn [tick snd ms_sync ms_pool next_sb p_clock p_workers].
+      split; [lia|]. intros w Hw Hnb. exfalso. apply Hnb.
+      apply (ids_agree _ _ (w_id w) Hag'). unfold ids. unfold apply_op. cbn [tick snd ms_pool p_workers].
+      apply in_map. exact Hw.
+    + (* OSyncEnd *)
+      unfold SI, apply_op. destruct (ms_sync m) as [[th l]|]; cbn; exact I.
   - (* the clauses *)
     destruct o; cbn [pool_clause]; auto.
     + (* OCreate *)
@@ -632,31 +869,38 @@ Proof.
            rewrite Hst in E2. rewrite Hib in E3. cbn in E2, E3. auto.
       * intros Hi. destruct (Hsh id Hi) as (w0 & Hw0 & Hid0 & Hst0).
         assert (w0 = w) by (eapply nodup_id_inj; try eassumption; congruence). subst w0. congruence.
+    + (* OSyncEnd: what has appeared since the request was issued carries a later stamp, and the sync keeps it *)
+      intros b -> i Hi Hnb. unfold SI in HSI. destruct (ms_sync m) as [[th l]|] eqn:Es; [|contradiction].
+      destruct HSI as [Hth Hall].
+      apply (ids_agree _ _ i Hag) in Hi. unfold ids in Hi. apply in_map_iff in Hi. destruct Hi as (w & Hid & Hw).
+      apply (ids_agree _ _ i Hag'). unfold apply_op. rewrite Es. cbn [snd ms_pool]. rewrite <- Hid.
+      apply sync_at_keeps_fresh; [cbn; lia|exact Hw|apply Hall; [exact Hw|rewrite Hid; exact Hnb]].
 Qed.
 
-Lemma model_steps c steps : forall m shut prev,
-  K shut prev (ms_pool m) -> fresh_ids prev steps -> run_steps c steps m = true -> pool_clauses shut prev steps.
+Lemma model_steps c steps : forall m shut sb prev,
+  K shut prev (ms_pool m) -> SI sb m -> fresh_ids prev steps -> run_steps c steps m = true -> pool_clauses shut sb prev steps.
 Proof.
-  induction steps as [|[o ob] r IH]; intros m shut prev HK Hfr Hrun; cbn [pool_clauses]; [exact I|].
+  induction steps as [|[o ob] r IH]; intros m shut sb prev HK HSI Hfr Hrun; cbn [pool_clauses]; [exact I|].
   cbn [run_steps] in Hrun. destruct (apply_op c o m) as [ret m'] eqn:E.
   rewrite !andb_true_iff in Hrun. destruct Hrun as [[[Hns _] Heq] Hrest]. destruct Hfr as [Hf Hfr].
-  pose proof (model_step c o ob m shut prev HK Hf Hns) as H. rewrite E in H. cbn [fst snd] in H.
-  destruct (H Heq) as [HK' Hcl]. split; [exact Hcl|]. eapply IH; eassumption.
+  pose proof (model_step c o ob m shut sb prev HK HSI Hf Hns) as H. rewrite E in H. cbn [fst snd] in H.
+  destruct (H Heq) as (HK' & HSI' & Hcl). split; [exact Hcl|]. eapply IH; eassumption.
 Qed.
 
 (* a case on which implementation and model agree satisfies every pool clause of the specification: a verdict
    "specification violated, model agrees" can only come from the process clauses (the environment's list of
    live processes), which the transition system of proofs/C14_sys.v covers *)
 Theorem wp_model_satisfies_pool_clauses cs :
-  fresh_ids empty_obs (wc_steps cs) -> model_b cs = true -> pool_clauses [] empty_obs (wc_steps cs).
+  fresh_ids empty_obs (wc_steps cs) -> model_b cs = true -> pool_clauses [] None empty_obs (wc_steps cs).
 Proof.
-  intros Hf Hm. unfold model_b in Hm. eapply model_steps; [|exact Hf|exact Hm].
-  split; [constructor|]. split; [split; reflexivity|intros i []].
+  intros Hf Hm. unfold model_b in Hm. eapply model_steps; [| |exact Hf|exact Hm].
+  - split; [constructor|]. split; [split; reflexivity|intros i []].
+  - exact I.
 Qed.
 
 (* and the full specification implies them *)
 Theorem wp_spec_implies_pool_clauses steps : forall shut disc sb prev,
-  spec_P shut disc sb prev steps -> pool_clauses shut prev steps.
+  spec_P shut disc sb prev steps -> pool_clauses shut sb prev steps.
 Proof.
   induction steps as [|[o ob] r IH]; intros shut disc sb prev; cbn [spec_P pool_clauses]; [auto|].
   intros [[Hs _] Hr]. split; [|eapply IH; exact Hr].
